@@ -4,7 +4,7 @@ from . import treecheck
 
 ID = 'C05'
 LEVEL = 'model_checking'
-RULE = ('(deep cut: 10..23 guard goals, a cut, then every body of <= 2 operators with a disjunction / negation / if-then-else; clauses the compiler rejects are skipped) ' 'every clause body tree with <= N operators from , ; -> \\+ over the 8 leaves '
+RULE = ('(deep cut: 13..20 guard goals o(G) on a body-local variable, a cut, then every body of <= 2 operators with a disjunction / negation / if-then-else; clauses the compiler rejects are skipped) ' 'every clause body tree with <= N operators from , ; -> \\+ over the 8 leaves '
         '{true fail ! z o(Vi) m(Vi) m(V1) k(Vi)} that contains at least one cut in a transparent '
         'position (or a call of k/1, a predicate whose own clause ends in a cut) and none in an opaque one, placed in the context p(..):-BODY. p(9..). '
         'c(..,Z):-m(Z),p(..). plus a dynamic fact p(7..), in 8 context variants (two of them with the clause variables inside a structure w(V1..Vn) that is the clause\'s only argument and is put together before the goals bind them): with / without a two-solution goal to '
@@ -93,7 +93,7 @@ def run_jfocus(spec):
 
 
 # ---- a cut deep inside a long clause -------------------------------------------------------------------------
-# N guard goals o(V1) .. o(VN), a cut, then every small body with a disjunction / negation / if-then-else: for every
+# N guard goals o(G) (G local to the body, so that the heads stay narrow), a cut, then every small body with a disjunction / negation / if-then-else: for every
 # N from 10 up to the size at which the compiler rejects the clause (such programs are skipped - if the compiler
 # accepts them, they mean what they say)
 def run_deepcut(spec):
@@ -104,15 +104,12 @@ def run_deepcut(spec):
     acc = Acc()
     tails = [t for m in (1, 2) for t in bodies.trees(m, ['m', 'z', 'o']) if bodies.ops_used(t) & {';', '->', '\\+'} and not bodies.cut_positions(t)[1]]
     idx = 0
-    for ng in range(10, 24):
+    for ng in range(13, 21):
         for t in tails:
             idx += 1
             if idx % n != k:
                 continue
-            tree = (',', ('L', '!'), t)
-            for _ in range(ng):
-                tree = (',', ('L', 'o'), tree)
-            case = treecheck.tree_case(tree)
+            case = treecheck.tree_case(t, deep_guards=ng)
             try:
                 impl.compile_text(case.describe()['scripts'][1]['text'])
             except Exception as e:  # noqa: BLE001
